@@ -602,6 +602,11 @@ def narr_setitem(I, ctx, a, k, v):
                             "there are as many values as true positions")
         old = a.elem
         if isinstance(v, NArr):
+            hook = getattr(I, "ghost_masked_assign", None)
+            if hook is not None:
+                # ghost statement of the contract under verification standing before a masked assignment (a lemma
+                # application over the structure of mask and values); it can only add obligations and facts
+                hook(ctx, I, a, k, v)
             en = mask_enum(ctx, k)
             if not ctx.branch(zn(v) == en.cnt):
                 raise I.raise_exc("ValueError")
@@ -633,7 +638,9 @@ def narr_getitem(I, ctx, a, k):
             j = B.zint(k.elem(i))
             j2 = z3.If(j < 0, zn(a) + j, j)
             return a.elem(smt.simp(j2))
-        return NArr(k.n, elem, a.dtype, "fancy")
+        r = NArr(k.n, elem, a.dtype, "fancy")
+        r.fancy_from = (a, k)
+        return r
     if isinstance(k, tuple) and k and k[0] == "slice":
         seq = B.getslice(I, ctx, SeqVal(a.n, a.elem), k)
         return NArr(seq.length, seq.elem, a.dtype, "slice")
